@@ -5,6 +5,7 @@ mod ctx;
 mod fam_canary;
 mod fam_cipher;
 mod fam_clicodec;
+mod fam_clihostile;
 mod fam_codec;
 mod fam_edit;
 mod fam_extract;
@@ -73,6 +74,7 @@ fn main() {
         "list" => fam_list::list(&mut ctx),
         "roundtrip" => fam_round::roundtrip(&mut ctx),
         "foreign" => fam_foreign::foreign(&mut ctx),
+        "cli-hostile" => fam_clihostile::cli_hostile(&mut ctx),
         "sched" => fam_sched::sched(&mut ctx),
         "fault" => fam_fault::fault(&mut ctx),
         "cli-codec" => fam_clicodec::cli_codec(&mut ctx),
